@@ -28,7 +28,7 @@ STATE_MEASURE = 'distinct (rule key set, near-miss kind, matched?) triples at pr
 PROBES = ['signal-matches-some-rule', 'near-miss-path-sibling', 'near-miss-namespace-sibling',
           'arg-missing', 'arg-non-string', 'argpath-trailing-slash-rule', 'argpath-trailing-slash-arg',
           'type-constraint-other', 'signal-while-add-pending', 'signal-while-del-pending',
-          'signal-after-removal', 'callback-raised', 'proxy-signal-right-signature',
+          'signal-after-removal', 'callback-raised', 'callable-shared-by-rules', 'shared-callable-ran-per-rule', 'proxy-signal-right-signature',
           'proxy-signal-wrong-signature', 'two-rules-one-signal', 'apostrophe-in-value',
           'empty-body-with-arg-rule', 'proxy-subscription-without-interface',
           'same-rule-id-on-two-connections']
@@ -74,7 +74,7 @@ def gen_rule(ds):
                     for i in sorted(idxs)]
     if ds.flag(0.3):
         taken = set(i for i, _ in r.get('arg', []))
-        free = [i for i in (0, 1, 2) if i not in taken]
+        free = [i for i in (0, 1, 2) if i not in taken or ds.flag(0.3)]
         if free:
             r['arg_path'] = [(ds.pick(free), ds.pick(ARGPATHS))]
     return r
@@ -189,8 +189,12 @@ def scenario(ctx):
         return False
     rig.handlers.append(on_msg)
 
-    def mk_cb(idx):
-        def cb(*a):
+    class Holder:
+        def __init__(self, idx):
+            self.idx = idx
+
+        def run(self, *a):
+            idx = self.idx
             invoked.append((idx, a))
             sim.log('sig-cb', idx)
             if rules[idx]['raises']:
@@ -198,7 +202,12 @@ def scenario(ctx):
                 if rules[idx]['raises'] == 2:
                     raise SimCancelled('callback %d cancelled' % idx)
                 raise RuntimeError('callback %d fails' % idx)
-        return cb
+    holders = {}
+
+    def mk_cb(idx):
+        if idx not in holders:
+            holders[idx] = Holder(idx)
+        return holders[idx].run
 
     def scan_sent():
         new = rig.sent[nseen[0]:]
@@ -230,11 +239,20 @@ def scenario(ctx):
             r = {'spec': spec, 'state': 'adding', 'raises': ds.weighted([6, 0.7, 0.5]), 'proxy_sig': None,
                  'id': None}
             rules.append(r)
+            # one callable (a bound method: equal, not identical, on every access) may serve
+            # several rules; it must then run once per satisfied rule
+            earlier = [i for i, q in enumerate(rules[:-1]) if q['proxy_sig'] is None]
+            if earlier and ds.flag(0.25):
+                owner = rules[ds.pick(earlier)]['cb']
+                r['cb'] = owner
+                r['raises'] = rules[owner]['raises']
+                sim.probe('callable-shared-by-rules')
             scan_sent()
             sim.log('op', 'addMatch', sorted(spec.items()))
             if any("'" in v for _, v in spec.get('arg', [])):
                 sim.probe('apostrophe-in-value')
-            d = rig.call(cl.addMatch, mk_cb(idx), **spec)
+            d = rig.call(cl.addMatch, mk_cb(r.get('cb', idx)), **spec)
+        r.setdefault('cb', idx)
         r['rdict'] = matchref.rule_dict(**spec)
         calls = scan_sent()
         if len(calls) != 1 or calls[0].fields.get(rc.F_MEMBER) != 'AddMatch':
@@ -357,21 +375,31 @@ def scenario(ctx):
             got = groups.pop(m.serial, [])
             got_ids = [g[0] for g in got]
             note_probes(m, nearmiss, must)
-            for idx in got_ids:
-                if got_ids.count(idx) > 1:
-                    raise Violation('C12/wrongly-delivered', 'twice',
-                                    'callback of rule %d ran %d times for one signal'
-                                    % (idx, got_ids.count(idx)))
-                if idx not in must and idx not in may:
-                    r = rules[idx]
+            # callbacks are counted per callable: one run per satisfied rule it serves
+            for cb in sorted(set(got_ids) | set(rules[i]['cb'] for i in must)):
+                served = [i for i, r in enumerate(rules) if r['cb'] == cb]
+                lo = [i for i in served if i in must]
+                hi = len(lo) + len([i for i in served if i in may])
+                c = got_ids.count(cb)
+                if c > hi and hi == 0:
+                    r = rules[served[0]]
                     raise Violation('C12/wrongly-delivered', wrong_key(r, m),
                                     'callback of rule %d %r (state %s) ran for signal %r which '
-                                    'does not satisfy it' % (idx, r['rdict'], r['state'], m.describe()))
-            if must - set(got_ids):
-                i = sorted(must - set(got_ids))[0]
-                raise Violation('C12/not-delivered', why_key(rules[i]['rdict'], m),
-                                'signal %r satisfies rule %d %r but its callback did not run'
-                                % (m.describe(), i, rules[i]['rdict']))
+                                    'does not satisfy it' % (served[0], r['rdict'], r['state'], m.describe()))
+                if c > hi:
+                    raise Violation('C12/wrongly-delivered', 'twice',
+                                    'callback of rule(s) %r ran %d times for one signal which satisfies '
+                                    '%d of them' % (served, c, hi))
+                if c < len(lo):
+                    i = lo[0]
+                    if len(served) > 1:
+                        sim.log('shared-callable', served, c, len(lo))
+                    raise Violation('C12/not-delivered',
+                                    why_key(rules[i]['rdict'], m) if len(served) == 1 else 'callable shared by rules',
+                                    'signal %r satisfies rule(s) %r (%r ...) but their callback ran %d time(s)'
+                                    % (m.describe(), lo, rules[i]['rdict'], c))
+                if len(lo) > 1:
+                    sim.probe('shared-callable-ran-per-rule')
             for idx, args in got:
                 r = rules[idx]
                 if r['proxy_sig'] is not None:
